@@ -208,6 +208,7 @@ type Meta struct {
 	Histogram   map[string]int   `json:"histogram"`
 	Cases       []any            `json:"cases"` // JSON description per case (for replay files and samples)
 	GoViolation []map[string]any `json:"go_violations,omitempty"` // violations decided on the Go side alone (panics, direct oracles)
+	CaseKeys    []string         `json:"case_keys,omitempty"`     // content keys of the judged cases (properties whose findings are recorded per input)
 }
 
 func writeMeta(outDir string, m *Meta) {
